@@ -42,6 +42,10 @@ ANCHOR_RELS = [
 OBJECT_REL = 'pyglove/core/symbolic/object.py'
 
 
+class Runaway(Exception):
+  """A worker's sampling loop does not end (e.g. end_loop() never reaches it)."""
+
+
 class SchedAbort(BaseException):
   """Unwinds a parked worker thread when the run is aborted (deadlock / time-out)."""
 
@@ -79,6 +83,7 @@ class Sched:
     self.total_yields = 0
     self.preempted_sites = {}
     self.serial_ctor = False
+    self.unwinding = set()
     self.ctor_done = [False] * n
 
   # -- baton -------------------------------------------------------------------------------
@@ -110,6 +115,9 @@ class Sched:
   # -- yield points -------------------------------------------------------------------------
   def yield_point(self, tid, hot, kind=None):
     if self.abort:
+      if tid in self.unwinding:      # already unwinding (e.g. the sample() generator being closed)
+        return
+      self.unwinding.add(tid)
       raise SchedAbort()
     k = self.yields[tid]
     self.yields[tid] += 1
@@ -270,6 +278,16 @@ class Run:
     self.delivered = [[] for _ in range(self.n)]   # (trial id) handed to each worker, in order
     self.errors = [None] * self.n
     self.tlock_mismatch = []
+    # search target: functions whose code differs from the reference table (hot = their lines)
+    self.target = set()
+    for rel, fn in case.get('target') or []:
+      self.target.add((os.path.join(env.root, rel), fn))
+      if fn == 'next':
+        self.target.add((os.path.join(env.root, rel), 'next_dna'))
+    # observations at the public API (independent of the site table)
+    self.trial_objs = {}               # trial id -> distinct Trial objects handed out under that id
+    self.group_trials = {}             # group -> Trial objects handed to its workers
+    self.pub_two_pending = []
 
   # -- locks ---------------------------------------------------------------------------------
   def on_acquire(self, tid, lock):
@@ -290,9 +308,12 @@ class Run:
     fn = frame.f_code.co_filename
     env = self.env
     if fn in env.anchor_files:
-      if frame.f_code.co_name in ACCESSORS:
+      name = frame.f_code.co_name
+      if name in env.accessors:
         return None      # one-line accessor: executes atomically with the statement that calls it
-      self.sched.yield_point(tid, False)
+      if name == 'next' and fn == env.lb_file:
+        self.sched.ctor_done[tid] = True
+      self.sched.yield_point(tid, (fn, name) in self.target)
       return self.local_trace
     if fn == env.object_file and frame.f_code.co_name == '__setattr__':
       back = frame.f_back
@@ -300,7 +321,10 @@ class Run:
         site = env.site_by_line.get((back.f_code.co_filename, back.f_lineno))
         if site is not None and site['stmt'] == 'aug':
           inner = '.inner' if (site['cls'] == 'DNAGenerator' and back.f_locals.get('self') is not self.algo) else ''
-          self.sched.yield_point(tid, True, site['kind'] + '.w' + inner)
+          hot = True
+          if self.target:
+            hot = (back.f_code.co_filename, back.f_code.co_name) in self.target or not self.held[tid]
+          self.sched.yield_point(tid, hot, site['kind'] + '.w' + inner)
           self.raw.append({'w': tid, 'k': site['kind'] + '.w' + inner, 'held': list(self.held[tid])})
     return None
 
@@ -316,12 +340,15 @@ class Run:
     kind = site['kind'] if site else None
     dup = kind is not None and self.last_site.get(fid) == kind
     self.last_site[fid] = kind
+    in_target = bool(self.target) and (frame.f_code.co_filename, frame.f_code.co_name) in self.target
     if site is None or dup:
-      self.sched.yield_point(tid, False)
+      self.sched.yield_point(tid, in_target)
       return self.local_trace
     if site['cls'] == 'DNAGenerator' and frame.f_locals.get('self') is not self.algo:
       kind = kind + '.inner'          # a generator nested inside the algorithm (Evolution's initialiser)
-    hot = True          # every shared access is a candidate preemption point
+    # every shared access is a candidate preemption point; when the search has a target, only the
+    # changed functions and the accesses made without any lock
+    hot = (in_target or not self.held[tid]) if self.target else True
     if kind == 'next.active':
       self.sched.ctor_done[tid] = True
     self.sched.yield_point(tid, hot, kind)
@@ -339,8 +366,6 @@ class Run:
         ev['t'] = int(loc['trial'].id)
       elif kind in ('next.ret', 'ct.append') and loc.get('trial') is not None:
         ev['t'] = int(loc['trial'].id)
-      if kind == 'next.ret':
-        self.delivered[tid].append(ev['t'])
       if kind == 'goc.register':
         self.studies.append(loc['study'])
     except Exception as e:     # pylint: disable=broad-except
@@ -376,9 +401,26 @@ class Run:
     i = 0
     for _, fb in pg.sample(env.spec, self.algo, num_examples=self.case['max'], name=self.name,
                            group=w['group'], early_stopping_policy=self.policy):
-      act = script[i] if i < len(script) else ['done', 10 + int(fb.id)]
+      dr = self.case.get('dr', 10)
+      act = script[i] if i < len(script) else ['done', dr + (int(fb.id) if dr > 0 else -int(fb.id) if dr < 0 else 0)]
       i += 1
-      self.raw.append({'w': tid, 'k': 'user', 'act': act, 't': int(fb.id)})
+      if i > 30 + len(script):
+        self.sched.abort = self.sched.abort or 'runaway'
+        raise Runaway('worker %d is still sampling after %d iterations' % (tid, i))
+      tid_trial = int(fb.id)
+      self.raw.append({'w': tid, 'k': 'user', 'act': act, 't': tid_trial})
+      self.delivered[tid].append(tid_trial)
+      tr = fb.get_trial()
+      objs = self.trial_objs.setdefault(tid_trial, [])
+      if not any(o is tr for o in objs):
+        objs.append(tr)
+      mine = self.group_trials.setdefault(w['group'], [])
+      if tr.status == 'PENDING':
+        other = [int(o.id) for o in mine if o is not tr and o.status == 'PENDING']
+        if other:
+          self.pub_two_pending.append([tid, tid_trial, other])
+      if not any(o is tr for o in mine):
+        mine.append(tr)
       try:
         with fb.ignore_race_condition():
           if act[0] == 'done':
@@ -457,7 +499,17 @@ class Run:
     obs['proposals'] = int(self.algo.num_proposals) if self.algo.dna_spec is not None else 0
     obs['feedbacks'] = int(self.algo.num_feedbacks) if self.algo.dna_spec is not None else 0
     obs['nstudies'] = len(self.studies)
-    obs['fed'] = sorted(e['t'] for e in self.raw if e['k'] == 'bf.call')
+    obs['clones'] = sorted(t for t, objs in self.trial_objs.items() if len(objs) > 1)
+    obs['pub_two_pending'] = self.pub_two_pending[:3]
+    if any(s['kind'] == 'bf.call' for s in self.env.info['sites']):
+      obs['fed'] = sorted(e['t'] for e in self.raw if e['k'] == 'bf.call')
+    elif hasattr(self.algo, 'seen') and result is not None:
+      by_dna = {}
+      for t in result.trials:
+        by_dna.setdefault(t.dna.value, int(t.id))
+      obs['fed'] = sorted(by_dna.get(v, 0) for v, _ in self.algo.seen)
+    else:
+      obs['fed'] = None
     if hasattr(self.algo, 'seen'):
       obs['algo_seen'] = len(self.algo.seen)
     return obs
@@ -620,7 +672,12 @@ class Env:
       raise framework.InfraError('pyglove imported from %s, expected %s' % (root, repo))
     self.anchor_files = {os.path.join(root, r) for r in ANCHOR_RELS}
     self.object_file = os.path.join(root, OBJECT_REL)
-    self.info = t_c16.extract()
+    self.root = root
+    self.lb_file = os.path.join(root, t_c16.LB)
+    # Non-strict: a source shape T-LOCK does not recognise is a broken tie (reported by the
+    # framework through translate.t_c16.run) but must never stop the runs: unrecognised statements
+    # become sites of kind `unk:…`, missing sites are simply not labelled.
+    self.info = t_c16.extract(strict=False)
     self.site_by_line = {}
     for s in self.info['sites']:
       for ln in range(s['line'], s['end'] + 1):
@@ -632,7 +689,7 @@ class Env:
     for name in self.info['registryLocks']:
       kind = t_c16.module_locks(__import__('ast').parse(open(os.path.join(root, t_c16.LB)).read()))[name]
       setattr(local_backend, name, CoopLock('registry', kind == 'RLock'))
-    self.spec = pg.dna_spec(pg.oneof(list(range(8))))
+    self.spec = pg.dna_spec(pg.oneof(list(range(64))))
     self.check_accessors(root)
 
     class Rec(pg.DNAGenerator):
@@ -642,7 +699,7 @@ class Env:
         self.seen = []
 
       def _propose(self):
-        return pg.DNA(self.num_proposals % 8)
+        return pg.DNA(self.num_proposals % 64)
 
       def _feedback(self, dna, reward):
         self.seen.append((dna.value, reward))
@@ -655,15 +712,17 @@ class Env:
     self.Rec, self.StopBelow = Rec, StopBelow
 
   def check_accessors(self, root):
-    """Every function of an anchor file named in ACCESSORS must be a single `return <expr>`."""
+    """A function of an anchor file named in ACCESSORS is executed atomically with its caller's
+    statement only if it is a single `return <expr>`; otherwise it is traced like any other function."""
     import ast    # pylint: disable=import-outside-toplevel
+    self.accessors = set(ACCESSORS)
     for rel in ANCHOR_RELS:
       tree = ast.parse(open(os.path.join(root, rel)).read())
       for n in ast.walk(tree):
         if isinstance(n, ast.FunctionDef) and n.name in ACCESSORS:
           body = [b for b in n.body if not (isinstance(b, ast.Expr) and isinstance(b.value, ast.Constant))]
           if len(body) > 1 or (body and not isinstance(body[0], (ast.Return, ast.Pass))):
-            raise framework.InfraError('%s: %s is treated as an atomic accessor but is not a one-liner' % (rel, n.name))
+            self.accessors.discard(n.name)
 
   def make_algo(self, kind):
     pg = self.pg
@@ -714,7 +773,7 @@ def gen_script(rng, length, allow_end):
     k = rng.weighted([(8, 'done'), (3, 'skip'), (2, 'measure'), (2, 'earlystop'), (1, 'donly'), (1, 'nop'),
                       (1 if allow_end else 0, 'end')])
     if k in ('done', 'measure', 'earlystop'):
-      out.append([k, rng.randint(0, 9)])
+      out.append([k, rng.weighted([(5, rng.randint(1, 9)), (2, 0), (3, -rng.randint(1, 9))])])
     else:
       out.append([k])
   return out
@@ -758,11 +817,26 @@ class C16(Prop):
                  'for skipped trials)']
 
   # -- generation --------------------------------------------------------------------------
+  def search_target(self):
+    """Functions whose code differs from the reference table, if the tie is broken (pure `ast`)."""
+    try:
+      info = t_c16.extract(strict=False)
+    except (TranslatorError, OSError):
+      return None
+    if t_c16.intact(info):
+      return []
+    return t_c16.changed_functions(info)
+
   def generate(self, rng, tier):
+    target = self.search_target()
+    if target is None or target:
+      yield from self.targeted(rng, tier, target or [])
+    # small configurations first: the first failing case of a signature is the one that is shrunk and
+    # written as replay, so it should be cheap
+    yield from self.systematic(rng, tier)
     n_random = 1000 if tier == 'quick' else 12000
     for i in range(n_random):
       yield self.random_case(rng, tier, big=(i % 8 == 0))
-    yield from self.systematic(rng, tier)
 
   def random_case(self, rng, tier, big=False):
     n = rng.randint(5, 8) if big else rng.randint(2, 4)
@@ -786,6 +860,7 @@ class C16(Prop):
       workers.append({'group': g, 'script': script})
     algo = rng.weighted([(6, 'record'), (3, 'random'), (1, 'evolution')])
     return {'workers': workers, 'max': mx, 'algo': algo,
+            'dr': rng.weighted([(5, 10), (2, 0), (3, -10)]),     # base of the default reward (10+id / 0 / -10-id)
             'ctor': rng.choice(['serial', 'concurrent', 'concurrent']),
             'sched': {'mode': 'random', 'seed': rng.below(1 << 30),
                       'p_hot': rng.choice([0.05, 0.15, 0.4]), 'p_cold': rng.choice([0.0, 0.01, 0.03])}}
@@ -795,6 +870,7 @@ class C16(Prop):
     configs = [
         {'workers': [{'group': 0, 'script': [['done', 5]]}, {'group': 0, 'script': [['done', 7]]}], 'max': 2},
         {'workers': [{'group': 0, 'script': [['done', 5]]}, {'group': 1, 'script': [['skip']]}], 'max': 3},
+        self.SMALL[3],
     ]
     if tier == 'thorough':
       configs += [
@@ -804,7 +880,7 @@ class C16(Prop):
           {'workers': [{'group': 0, 'script': [['done', 1]]}, {'group': 0, 'script': [['donly']]},
                        {'group': 1, 'script': [['done', 3]]}], 'max': 3},
       ]
-    horizon = 110 if tier == 'quick' else 130
+    horizon = 80 if tier == 'quick' else 130
     for cfg in configs:
       for ctor in ('serial', 'concurrent'):
         base = dict(cfg, algo='record', ctor=ctor)
@@ -812,10 +888,44 @@ class C16(Prop):
           yield dict(base, sched={'mode': 'directives', 'd': [['hot', a, 0]]})
         if tier == 'thorough':
           for a in range(0, horizon):
-            for b in range(a + 1, min(horizon, a + 30)):
+            for b in range(a + 1, min(horizon, a + 23)):
               yield dict(base, sched={'mode': 'directives', 'd': [['hot', a, 0], ['hot', b, 0]]})
 
+  SMALL = [
+      # constructor races / private groups
+      {'workers': [{'group': 0, 'script': [['done', 5]]}, {'group': 1, 'script': [['done', 7]]}], 'max': 3},
+      # co-workers racing on one trial (done/done, done/skip)
+      {'workers': [{'group': 0, 'script': [['done', 5]]}, {'group': 0, 'script': [['done', 7]]}], 'max': 2},
+      {'workers': [{'group': 0, 'script': [['measure', 4], ['done', 2]]}, {'group': 0, 'script': [['skip']]}], 'max': 3},
+      # skipped trials among non-positive rewards
+      {'workers': [{'group': 0, 'script': [['skip'], ['done', -2]]}, {'group': 1, 'script': [['done', 0], ['skip']]}],
+       'max': 4, 'dr': -10},
+  ]
+
+  def targeted(self, rng, tier, target):
+    """The tie is broken: aim at the functions whose text changed. Every placement of one preemption
+    (thorough: two) at their lines / at accesses made without a lock, for small configurations with
+    interleaved and serial constructors; then random schedules with a high rate there."""
+    horizon = 70 if tier == 'quick' else 140
+    for cfg in self.SMALL:
+      for ctor in ('concurrent', 'serial'):
+        base = dict(cfg, algo='record', ctor=ctor, target=target)
+        for a in range(horizon):
+          yield dict(base, sched={'mode': 'directives', 'd': [['hot', a, 0]]})
+        if tier == 'thorough':
+          for a in range(horizon):
+            for b in range(a + 1, min(horizon, a + 20)):
+              yield dict(base, sched={'mode': 'directives', 'd': [['hot', a, 0], ['hot', b, 0]]})
+    for _ in range(300 if tier == 'quick' else 3000):
+      c = self.random_case(rng, tier)
+      c['target'] = target
+      c['sched']['p_hot'] = rng.choice([0.1, 0.3])
+      yield c
+
   def search_cases(self, rng, tier, broken):
+    target = self.search_target()
+    if target is None or target:
+      yield from self.targeted(rng.fork(), 'thorough' if tier == 'thorough' else 'quick', target or [])
     for _ in range(900 if tier == 'quick' else 4000):
       c = self.random_case(rng, tier)
       c['sched']['p_hot'] = 0.4
@@ -931,11 +1041,16 @@ class C16(Prop):
       for t in ts:
         by_trial.setdefault(t, set()).add(groups[w])
     multi = sorted(t for t, gs in by_trial.items() if len(gs) > 1)
-    if obs['nstudies'] > 1 and (multi or obs['proposals'] != n or len(obs['fed']) != len(set(obs['fed']))):
+    if len(set(ids)) != len(ids):
+      return {'signature': 'ids', 'what': 'trial ids of the study are %s (an id is used twice)' % ids}
+    fed_log = obs['fed'] or []
+    if (obs['nstudies'] > 1 or obs['clones']) and (
+        multi or obs['clones'] or obs['proposals'] != n or len(fed_log) != len(set(fed_log))):
       return {'signature': 'private-studies',
-              'what': 'workers of one name got %d different studies: trials %s were handed to several groups, '
-                      'poll_result sees %d trials, the algorithm made %d proposals and got feedback for %s' % (
-                          obs['nstudies'], multi, n, obs['proposals'], obs['fed'])}
+              'what': 'workers of one name sample from different studies (%d registered; trial ids %s exist as '
+                      'several Trial objects; trials %s were handed to several groups): poll_result sees %d trials, '
+                      'the algorithm made %d proposals and got feedback for %s' % (
+                          obs['nstudies'], obs['clones'], multi, n, obs['proposals'], obs['fed'])}
     if ids != list(range(1, n + 1)):
       return {'signature': 'ids', 'what': 'trial ids are %s' % ids}
     if case['max'] is not None and n > case['max']:
@@ -964,9 +1079,14 @@ class C16(Prop):
         cur.add(t)
       elif kind == 'fin':
         pending_of.get(g, set()).discard(t)
+    if obs['pub_two_pending']:
+      w, t, other = obs['pub_two_pending'][0]
+      return {'signature': 'two-pending-trials-in-group',
+              'what': 'worker %d of group %s was given pending trial %d while trial %s of its group is pending' % (
+                  w, groups[w], t, other)}
     # feedback exactly once
     should = sorted(t['id'] for t in st['trials'] if t['completed'] and not t['infeasible'])
-    fed = obs['fed']
+    fed = obs['fed'] if obs['fed'] is not None else should
     if out.get('nsetups', 0) > 1 and (obs['proposals'] != n or obs['feedbacks'] != len(should)
                                       or obs.get('algo_seen', len(should)) != len(should)):
       return {'signature': 'algorithm-reset',
